@@ -10,6 +10,11 @@ dst = os.path.join("/verif/seeded", name)
 os.makedirs(dst, exist_ok=True)
 for f in ("patch.diff", "seeded_demo.rs", "NOTES.md"):
     shutil.copy(os.path.join(src, f), os.path.join(dst, f))
+ported = os.path.join(src, "patch.ported.diff")
+if os.path.exists(ported):
+    # the sub-agent wrote its patch against an earlier /repo HEAD; hooks added since touch the same lines
+    shutil.copy(os.path.join(src, "patch.diff"), os.path.join(dst, "patch.orig.diff"))
+    shutil.copy(ported, os.path.join(dst, "patch.diff"))
 meta = {
     "property": prop,
     "origin": "written by a fresh sub-agent that was given only the text of the property and its own scratch git worktree of /repo (nothing from /verif)",
@@ -17,5 +22,9 @@ meta = {
     "confirmed_by": "tools/verify_seeded.py in the scratch worktree: patch applies to /repo HEAD; `cargo test --workspace --no-fail-fast --offline` with the patch; `cargo test --test seeded_demo --offline` x3 with and x3 without the patch",
     "confirmation": v,
 }
+if os.path.exists(ported):
+    meta["ported"] = "patch.diff is the same change re-applied by hand on the current /repo HEAD (a later add-only hook commit touches the same lines); patch.orig.diff is what the sub-agent delivered and what was confirmed"
+if os.environ.get("CHECK_WITH"):
+    meta["check_with"] = os.environ["CHECK_WITH"].split(",")
 json.dump(meta, open(os.path.join(dst, "meta.json"), "w"), indent=1)
 print("installed", dst)
